@@ -303,6 +303,10 @@ def check(ctx, rep):
     rep.rule('R04.g', 'every future crux provides to tasks (JoinHandle, shell requests and streams, timers) keeps the current poll\'s waker when it stays Pending', floor=5)
     time = rep_ctx_time(core)
     c05.check_pending_wakers(rep, 'R04.g', core, time)
+    # R04.i: a JoinHandle awaited inside a command completes whenever its task leaves the command (shared with C07 R07.b)
+    from rules.props import c07
+    rep.rule('R04.i', 'every task that leaves a command — finished, aborted or evicted — publishes `finished` and wakes its join handles', floor=2)
+    c07.check_finish_notify(rep, 'R04.i', core)
     # R04.h: done / event / notify / request / stream primitives produce exactly their single output
     from rules.props import prims
     rep.rule('R04.h', 'done / event / notify_shell / request_from_shell / stream_from_shell make exactly the one context call they stand for, '
